@@ -830,7 +830,30 @@ func (e *Engine) mapDelete(st *State, m MapV, key Value) []branch {
 // mapOrder chooses the iteration order of a map range. Default: insertion
 // order; with permute mode, an order selected by the engine's permutation seed.
 func (e *Engine) mapOrder(st *State, site ssa.Instruction, keys []Value) []Value {
-	return keys
+	n := len(keys)
+	if n < 2 || e.mapOrderPolicy == 0 {
+		return keys
+	}
+	out := make([]Value, 0, n)
+	switch e.mapOrderPolicy {
+	case 1: // reversed
+		for i := n - 1; i >= 0; i-- {
+			out = append(out, keys[i])
+		}
+	case 2: // rotated by one
+		out = append(out, keys[1:]...)
+		out = append(out, keys[0])
+	case 3: // odd positions first, then even ones
+		for i := 1; i < n; i += 2 {
+			out = append(out, keys[i])
+		}
+		for i := 0; i < n; i += 2 {
+			out = append(out, keys[i])
+		}
+	default:
+		return keys
+	}
+	return out
 }
 
 // ---------- iteration ----------
